@@ -222,7 +222,7 @@ Proof.
     unfold step, step_v in Hd |- *.
   - (* Put *)
     destruct fr as [p| |]; [| simpl in Hd; rewrite Hf in Hd; discriminate | simpl in Hd; rewrite Hf in Hd; discriminate].
-    destruct (refuse_location true p); [simpl in Hd; rewrite Hf in Hd; discriminate|].
+    destruct (refuse_w true true p); [simpl in Hd; rewrite Hf in Hd; discriminate|].
     destruct (held_any s [id]); [simpl in Hd; rewrite Hf in Hd; discriminate|].
     simpl in Hpc. apply andb_true_iff in Hpc. destruct Hpc as [E1 E2]. apply lkey_eqb_eq in E1. apply lkey_eqb_eq in E2.
     cbv zeta in Hd. rewrite Hti in Hd. rewrite E1 in Hd. rewrite E2 in Hd. rewrite fget_fset_same in Hd.
@@ -234,7 +234,7 @@ Proof.
     rewrite Hh in Hd. cbn [andb] in Hd. simpl in Henv.
     destruct fr as [p| |]; [| simpl in Hd; rewrite Hf in Hd; discriminate | simpl in Hd; rewrite Hf in Hd; discriminate].
     destruct (fget (fs s) src) as [cs|] eqn:Es; [| simpl in Hd; rewrite Hf in Hd; discriminate].
-    destruct (refuse_location true p); [simpl in Hd; rewrite Hf in Hd; discriminate|].
+    destruct (refuse_w true true p); [simpl in Hd; rewrite Hf in Hd; discriminate|].
     cbn [fst fs add_recs with_fs] in Hd.
     destruct (lkey_eqb (target_loc p ext) l) eqn:E.
     + apply lkey_eqb_eq in E. subst l. rewrite fget_fset_same in Hd. discriminate.
@@ -277,7 +277,7 @@ Proof.
     try (destruct (held_any s (map fst members)) eqn:Hh; [rewrite (zip_held_noop _ _ _ _ Hh); reflexivity|]);
     unfold step, step_v.
   - destruct fr as [p| |]; [| reflexivity | reflexivity].
-    destruct (refuse_location true p); [reflexivity|].
+    destruct (refuse_w true true p); [reflexivity|].
     destruct (held_any s [id]); [reflexivity|].
     simpl in Hpc. apply andb_true_iff in Hpc. destruct Hpc as [E1 E2]. apply lkey_eqb_eq in E1. apply lkey_eqb_eq in E2.
     cbv zeta. rewrite Hti. rewrite E1. rewrite E2. rewrite fget_fset_same. cbn [fst fs add_recs with_fs].
@@ -285,7 +285,7 @@ Proof.
   - rewrite Hh. cbn [andb].
     destruct fr as [p| |]; [| reflexivity | reflexivity].
     destruct (fget (fs s) src) as [cs|] eqn:Es; [|reflexivity].
-    destruct (refuse_location true p); [reflexivity|].
+    destruct (refuse_w true true p); [reflexivity|].
     assert (E : lkey_eqb (target_loc p ext) l = false) by (apply inside_differ; assumption).
     cbn [fst fs add_recs with_fs].
     rewrite (fget_fset_other _ _ _ _ E). destruct m; [reflexivity|].
